@@ -62,7 +62,7 @@ fn same_table(a: &RecordBatch, b: &RecordBatch) -> bool {
 
 pub fn run(quick: bool, _seed: u64, work: &str) -> Out {
     let mut o = Out::new();
-    let sfs: Vec<f64> = if quick { vec![0.001, 0.002, 0.005] } else { vec![0.001, 0.002, 0.005, 0.01, 0.02, 0.05] };
+    let sfs: Vec<f64> = if quick { vec![0.001, 0.002, 0.003, 0.005, 0.01] } else { vec![0.001, 0.002, 0.005, 0.01, 0.02, 0.05] };
     let seeds = [0u64, 1, 42];
     let base = PathBuf::from(work).join(format!("c39-{}", std::process::id()));
     // source hygiene: no hidden global state in the generator
@@ -96,6 +96,22 @@ pub fn run(quick: bool, _seed: u64, work: &str) -> Out {
                 if let Some(x) = a.get(t) {
                     if x.num_rows() != n {
                         bad = Some(format!("table {t} has {} rows, TpchRowCounts says {n}", x.num_rows()));
+                    }
+                }
+            }
+            // the TPC-H ratios themselves (independent of TpchRowCounts): 5 regions, 25 nations, 4 partsupp rows per part,
+            // 10 orders per customer, 1..7 lineitems per order, SF x (10,000 suppliers, 200,000 parts, 150,000 customers)
+            {
+                let n = |t: &str| a.get(t).map(|b| b.num_rows()).unwrap_or(0) as f64;
+                let near = |got: f64, want: f64| (got - want).abs() <= (want * 0.02).max(1.0);
+                let checks = [
+                    ("region", n("region") == 5.0), ("nation", n("nation") == 25.0), ("partsupp = 4 x part", n("partsupp") == 4.0 * n("part")),
+                    ("orders = 10 x customer", n("orders") == 10.0 * n("customer")), ("lineitem within 1..7 per order", n("lineitem") >= n("orders") && n("lineitem") <= 7.0 * n("orders")),
+                    ("supplier = 10000 x SF", near(n("supplier"), 10000.0 * sf)), ("part = 200000 x SF", near(n("part"), 200000.0 * sf)), ("customer = 150000 x SF", near(n("customer"), 150000.0 * sf)),
+                ];
+                for (what, ok) in checks {
+                    if !ok {
+                        bad = Some(format!("row counts do not follow the TPC-H ratio: {what} (rows: {:?})", a.iter().map(|(k, v)| (k.clone(), v.num_rows())).collect::<BTreeMap<_, _>>()));
                     }
                 }
             }
